@@ -46,7 +46,7 @@ def scenarios(tier):
     L.append((SC.scn("fan3-j3", w["fan3"], ["redo --no-log -j3 top"], visible=SC.TOKENS), 0 if q else 2))
     # (6) token starvation with log capture: the followed sub-redo cheats (finds its target up to date / builds it itself)
     from .c08 import cheat_worlds
-    cw1, cw2, _cw3 = cheat_worlds()
+    cw1, cw2, _cw3, _cw4 = cheat_worlds()
     L.append((SC.scn("log-cheat-uptodate-j2", cw1, ["redo -j2 b a c"], visible=SC.TOKENS + ["lock-try"], log_mode=True), 1 if q else 2))
     L.append((SC.scn("log-cheat-builds-j2", cw2, ["redo -j2 b a c"], visible=SC.TOKENS + ["lock-try"], log_mode=True), 0 if q else 2))
     # (7) a long wait for a token (no log capture, so no cheating): a's chain builds x, b's redo-ifchange hands its token
